@@ -55,6 +55,8 @@ pub enum CaseEnd {
     Crashed(String),
     /// the worker did not come back within the limit and was killed
     Hung,
+    /// not run: the check stopped early because several cases had already crashed or hung
+    Skipped,
 }
 
 /// Child side: run cases `start, start+stride, ..` below `n`, one line of JSON per case.
@@ -89,12 +91,19 @@ pub fn proc_map(cfg: &Cfg, id: &str, n: u64, hang_secs: u64) -> Result<Vec<CaseE
     let workers = (cfg.workers.max(1) as u64).min(n.max(1));
     let results: std::sync::Mutex<Vec<Option<CaseEnd>>> = std::sync::Mutex::new((0..n).map(|_| None).collect());
     let err: std::sync::Mutex<Option<String>> = std::sync::Mutex::new(None);
+    // after this many crashed / hung cases the remaining ones are skipped: the violation is
+    // established, and a change that makes every case hang must not stall the check for hours
+    let abnormal = std::sync::atomic::AtomicUsize::new(0);
+    const MAX_ABNORMAL: usize = 3;
     std::thread::scope(|s| {
         for k in 0..workers {
-            let (results, err, exe) = (&results, &err, &exe);
+            let (results, err, exe, abnormal) = (&results, &err, &exe, &abnormal);
             s.spawn(move || {
                 let mut start = k;
                 while start < n {
+                    if abnormal.load(std::sync::atomic::Ordering::SeqCst) >= MAX_ABNORMAL {
+                        break;
+                    }
                     let mut child = match Command::new(exe)
                         .args(["worker", id, &start.to_string(), &workers.to_string(), &n.to_string()])
                         .env("VERIF_SEED", cfg.seed.to_string())
@@ -135,8 +144,15 @@ pub fn proc_map(cfg: &Cfg, id: &str, n: u64, hang_secs: u64) -> Result<Vec<CaseE
                     });
                     let mut current: Option<u64> = None;
                     let mut next_start = n;
+                    let mut stop = false;
                     for line in BufReader::new(stdout).lines() {
                         let Ok(line) = line else { break };
+                        if abnormal.load(std::sync::atomic::Ordering::SeqCst) >= MAX_ABNORMAL {
+                            // the check is being wound up
+                            unsafe { libc::kill(pid, libc::SIGKILL) };
+                            stop = true;
+                            break;
+                        }
                         tick.fetch_add(1, std::sync::atomic::Ordering::SeqCst);
                         if let Some(i) = line.strip_prefix("S ") {
                             current = i.trim().parse().ok();
@@ -154,6 +170,9 @@ pub fn proc_map(cfg: &Cfg, id: &str, n: u64, hang_secs: u64) -> Result<Vec<CaseE
                     let status = child.wait();
                     done.store(true, std::sync::atomic::Ordering::SeqCst);
                     let _ = wd.join();
+                    if stop {
+                        break;
+                    }
                     if let Some(i) = current {
                         // the worker ended in the middle of case i
                         let end = if killed.load(std::sync::atomic::Ordering::SeqCst) {
@@ -171,6 +190,7 @@ pub fn proc_map(cfg: &Cfg, id: &str, n: u64, hang_secs: u64) -> Result<Vec<CaseE
                             })
                         };
                         results.lock().unwrap()[i as usize] = Some(end);
+                        abnormal.fetch_add(1, std::sync::atomic::Ordering::SeqCst);
                         next_start = i + workers;
                     } else if !matches!(&status, Ok(st) if st.success()) {
                         *err.lock().unwrap() = Some(format!("worker ended abnormally outside a case: {status:?}"));
@@ -184,10 +204,15 @@ pub fn proc_map(cfg: &Cfg, id: &str, n: u64, hang_secs: u64) -> Result<Vec<CaseE
     if let Some(e) = err.into_inner().unwrap() {
         return Err(Harness(e));
     }
+    let aborted = abnormal.load(std::sync::atomic::Ordering::SeqCst) >= MAX_ABNORMAL;
     let v = results.into_inner().unwrap();
     let mut out = Vec::with_capacity(v.len());
     for (i, r) in v.into_iter().enumerate() {
-        out.push(r.ok_or_else(|| Harness(format!("no result for case {i}")))?);
+        out.push(match r {
+            Some(r) => r,
+            None if aborted => CaseEnd::Skipped,
+            None => return Err(Harness(format!("no result for case {i}"))),
+        });
     }
     Ok(out)
 }
